@@ -34,6 +34,7 @@ c parameters:
 c variables:
       integer, intent(in) :: np, ndgs, nang
       integer :: maxi
+      real(kind=dp) :: rnan
       real(kind=dp), intent(in) :: lam, mrr, mri, eps
       real(kind=dp), intent(in) :: axi, rat, alpha, beta, thet0, phi0
       real(kind=dp), dimension(nang),intent(in) :: thet, phi
@@ -43,6 +44,19 @@ C Call amp_scat_matrix on the first angle to calc the T-matrix
       call amp_scat_matrix (axi,rat,lam,mrr,mri,eps,np,ndgs,alpha,
      &                      beta,thet0,thet(1),phi0,phi(1),
      &                      s11(1),s12(1),s21(1),s22(1),maxi)
+C amp_scat_matrix reports non-convergence / too large a particle with
+C maxi < 0: return NaN amplitudes so the caller can raise an error
+      if (maxi < 0) then
+         rnan = 0.0_dp
+         rnan = rnan / rnan
+         do j=1, nang
+            s11(j) = cmplx(rnan, rnan, kind=dp)
+            s12(j) = cmplx(rnan, rnan, kind=dp)
+            s21(j) = cmplx(rnan, rnan, kind=dp)
+            s22(j) = cmplx(rnan, rnan, kind=dp)
+         end do
+         return
+      end if
 C loop over the rest of the angles. T-matrix is a global (common)
       if (nang > 1) then
          do j=2, nang
